@@ -390,3 +390,285 @@ def span_recording_obligations(rep, tier, unit='wiring:span-recording'):
         ok = len(stores) == 1 and start_saved and stores[0].endswith(f'({ast.unparse(first.targets[0])}, _pos)')
         rep.add(unit, f'_try_A saves the entry position first and stores (entry, _pos) into the new instance [{name}]', 'schematic', ok,
                 detail={'src': ast.unparse(fn)})
+
+
+# ---------------------------------------------------------------------------------------------- C04 ignore wiring
+def _all_expression_builders():
+    """one instance of every expression class with a DISTINGUISHABLE real literal in every child slot"""
+    n = [0]
+
+    def lit():
+        n[0] += 1
+        return X.Str(f'lit{n[0]}')
+
+    def row(assoc, ops):
+        return type('Row', (), {'associativity': assoc, 'operators': ops})()
+    out = {
+        'Apply': lambda: X.Apply(lit(), lit()),
+        'Choice': lambda: X.Choice(lit(), lit(), lit()),
+        'Discard': lambda: X.Discard(lit(), lit()),
+        'Expect': lambda: X.Expect(lit()),
+        'ExpectNot': lambda: X.ExpectNot(lit()),
+        'Let': lambda: X.Let('x', lit(), lit()),
+        'List': lambda: X.List(lit(), min_len=1, max_len=3),
+        'Longest': lambda: X.Longest(lit(), lit()),
+        'Opt': lambda: X.Opt(lit()),
+        'Sep': lambda: X.Sep(lit(), lit()),
+        'Seq': lambda: X.Seq(lit(), lit()),
+        'Skip': lambda: X.Skip(lit(), lit()),
+        'Where': lambda: X.Where(lit(), lit()),
+        'Rule': lambda: X.Rule('R', None, lit()),
+        'Class': lambda: X.Class('C', None, [X.Rule('a', None, lit()), X.Rule(None, None, lit(), is_omitted=True)]),
+        'Call(positional)': lambda: X.Call(_ref('T'), [lit(), X.Seq(lit(), lit())]),
+        'Call(keyword)': lambda: X.Call(_ref('T'), [X.KeywordArg('k', lit()), X.KeywordArg('j', X.Opt(lit()))]),
+        'OperatorTable': lambda: X.OperatorTable.create(lit(), [row('prefix', [lit()]), row('left', [lit(), lit()]), row('postfix', [lit()]),
+                                                             row('mixfix', [lit()]), row('right', [lit()]), row('infix', [lit()])]),
+        'nested': lambda: X.Seq(X.Opt(X.Choice(lit(), X.List(X.Discard(lit(), lit())))), X.Expect(X.Where(lit(), X.PythonExpression('f')))),
+    }
+    return out, n
+
+
+def visit_reaches_every_child(rep, tier, unit='wiring:visit-reaches-every-child'):
+    """expressions.visit reaches every sub-expression of every expression class, so that the passes built on it (_set_skip_ignored,
+    _assign_ids, precompile, error messages) touch every literal anywhere in a grammar (C04, C06)"""
+    builders, counter = _all_expression_builders()
+    for name, mk in builders.items():
+        before = counter[0]
+        node = mk()
+        made = {f'lit{i}' for i in range(before + 1, counter[0] + 1)}
+        seen = []
+        X.visit(node, lambda e: seen.append(e.value) if isinstance(e, X.Str) else None)
+        missing = sorted(made - set(seen))
+        rep.add(unit, f'{name}: every literal child is visited', 'case_complete', not missing, detail={'missing': missing, 'made': sorted(made)})
+    # every Expression subclass exported by the package is covered by the table above (a new class must be added here)
+    classes = sorted(k for k, v in vars(X).items() if isinstance(v, type) and issubclass(v, frag.Expression) and v is not frag.Expression)
+    covered = {'Apply', 'Backtrack', 'Byte', 'Call', 'Choice', 'Class', 'Discard', 'Expect', 'ExpectNot', 'Fail', 'Let', 'List', 'Longest',
+               'OperatorTable', 'Opt', 'PythonExpression', 'Ref', 'Regex', 'Rule', 'Sep', 'Seq', 'Skip', 'Str', 'Where'}
+    rep.add(unit, 'the class table is complete (every exported Expression subclass is a leaf or has an entry)', 'case_complete',
+            set(classes) <= covered, detail={'uncovered': sorted(set(classes) - covered)})
+
+
+IGNORE_SHAPES = {
+    'named,before,plain-start': 'ignore Space = /[ ]+/\nstart = [Word, "=", Num]\nWord = /[a-z]+/\nNum = /[0-9]+/ | 0x41',
+    'anonymous,after,plain-start': 'start = [Word, "=", Num]\nWord = /[a-z]+/\nNum = /[0-9]+/\nignore /[ ]+/',
+    'two,mixed,plain-start': 'ignore Space = /[ ]+/\nstart = Word+ << "."\nWord = /[a-z]+/i\nignore Comment = /#[^\\n]*/',
+    'named,class-start': 'ignore Space = " "\nclass Start {\n a: "a"\n b: Word\n}\nWord = /[a-z]+/',
+    'named,header': 'grammar ignwiring\nignore Space = /[ ]+/\nstart = [Word, Opt("!")]\nWord = /[a-z]+/\nT(x) = x << "."\nU = T("u") | T(k="v")',
+    'named,no-start': 'ignore Space = /[ ]+/\nFirst = [Word, "!"]\nWord = /[a-z]+/',
+    'bytes': 'ignore Pad = 0x00\nstart = [0x41, b"BC", b/[D-F]+/]',
+}
+
+
+def _literal_success_branches(fn):
+    """If-statements of an emitted function that test a literal match (string slice compare, regex match object, byte test)"""
+    out = []
+    for n in ast.walk(fn):
+        if isinstance(n, ast.If):
+            t = ast.unparse(n.test)
+            if ('_text[slice(' in t and '==' in t) or t.startswith('match') or ('_text[_pos] ==' in t):
+                out.append(n)
+    return out
+
+
+def ignore_wiring_obligations(rep, tier, unit='wiring:ignore'):
+    for shape, desc in IGNORE_SHAPES.items():
+        named = 'grammar ' in desc
+        src, tree = _module_tree(desc)
+        fns = {n.name: n for n in tree.body if isinstance(n, ast.FunctionDef)}
+        ign = ('_ctx.' if named else '') + '_try__ignored'
+        # 1. the _ignored rule: Skip over exactly the ignored rules, in declaration order, by reference
+        rules = front.rules_of(desc.split('\n', 1)[1] if named else desc)
+        declared = [r for r in rules if getattr(r, 'is_ignored', False)]
+        f = fns.get('_try__ignored')
+        reqs = requests_in(f) if f is not None else None
+        ok = f is not None and len(reqs) == len(declared)
+        if ok:
+            for r, d in zip(reqs, declared):
+                nm = r.split('.')[-1]
+                ok = ok and (nm == f'_try_{d.name}' if d.name and not d.name.startswith('_anonymous') else nm.startswith('_try__anonymous_'))
+        rep.add(unit, f'_ignored requests exactly the declared ignore rules, in order [{shape}]', 'schematic', ok, detail={'requests': reqs})
+        # 2. leading skip: the entry implementation's first action is the request for _ignored at the entry position
+        if 'class-start' in shape:
+            entry = '_try_Start'
+        elif 'no-start' in shape:
+            entry = '_try_First'
+        else:
+            entry = '_try_start'
+        fn = fns[entry]
+        first_req = None
+        pos_assigned_before = False
+        body = fn.body
+        while body:
+            s0 = body[0]
+            ys = [y for y in ast.walk(s0) if isinstance(y, ast.Yield)]
+            if isinstance(s0, (ast.While, ast.If)) and ys:
+                body = s0.body            # descend: the first statement executed inside the block
+                continue
+            if ys:
+                first_req = ys[0]
+                break
+            if any(isinstance(n, ast.Name) and n.id == '_pos' and isinstance(n.ctx, ast.Store) for n in ast.walk(s0)):
+                pos_assigned_before = True
+            body = body[1:]
+        ok = first_req is not None and isinstance(first_req.value, ast.Tuple) and ast.unparse(first_req.value.elts[1]) == ign \
+            and ast.unparse(first_req.value.elts[2]) == '_pos' and not pos_assigned_before
+        rep.add(unit, f'parse skips ignored text before the first expression of the rule it starts with [{shape}]', 'schematic', ok,
+                detail={'first_request': ast.unparse(first_req) if first_req is not None else None})
+        # 3. every literal of every rule skips after a successful match - and nothing else requests _ignored
+        nlit = nreq = 0
+        bad = []
+        for name, fn in fns.items():
+            if not (name.startswith('_try_') or name.startswith('_parse_function_')) or name == '_try__ignored':
+                continue
+            branches = _literal_success_branches(fn)
+            inside = set()
+            for b in branches:
+                nlit += 1
+                ys = [y for s_ in b.body for y in ast.walk(s_) if isinstance(y, ast.Yield) and isinstance(y.value, ast.Tuple)
+                      and ast.unparse(y.value.elts[1]) == ign]
+                if len(ys) != 1:
+                    bad.append((name, ast.unparse(b.test)[:50]))
+                inside.update(id(y) for y in ys)
+            for y in ast.walk(fn):
+                if isinstance(y, ast.Yield) and isinstance(y.value, ast.Tuple) and ast.unparse(y.value.elts[1]) == ign:
+                    nreq += 1
+                    if id(y) not in inside and not (name == entry and y is first_req):
+                        bad.append((name, 'request for _ignored outside a literal: ' + ast.unparse(y)[:60]))
+        rep.add(unit, f'every literal skips ignored text exactly once after a successful match, and nothing else does [{shape}]', 'schematic',
+                not bad and nlit > 0, detail={'literals': nlit, 'requests': nreq, 'problems': bad[:5]})
+
+
+def _walk_in_order(node):
+    yield node
+    for c in ast.iter_child_nodes(node):
+        yield from _walk_in_order(c)
+
+
+# ---------------------------------------------------------------------------------------------- C06 argument adaptor
+def argument_adaptor_obligations(rep, tier, unit='wiring:argument-adaptor'):
+    """invoking an argument value as ([ctx,] text, q) runs the helper's body - the fragment of the argument expression - with
+    _text=text, _pos=q, _ctx=ctx and every captured name bound to its call-site value: parameter list of the emitted def and
+    the captured tuple agree in arity and order, the body is the inline fragment followed by the final yield"""
+    from contracts.call import build_arg, ARG_KINDS
+    for kind in ARG_KINDS:
+        if kind in ('rule-ref', 'local-ref', 'inline-python'):
+            continue
+        for ctx in (False, True):
+            for as_kw in (False, True):
+                arg = build_arg(kind)
+                call = X.Call(_ref('T'), [X.KeywordArg('k', arg) if as_kw else arg])
+                src = frag.emit(call, ctx)
+                tree = ast.parse(src)
+                defs = [n for n in tree.body if isinstance(n, ast.FunctionDef)]
+                tag = f'[{kind},ctx={int(ctx)},keyword={int(as_kw)}]'
+                if len(defs) != 1:
+                    rep.add(unit, f'one helper is emitted {tag}', 'case_complete', False, detail={'src': src})
+                    continue
+                fn = defs[0]
+                lead = (['_ctx'] if ctx else []) + ['_text', '_pos']
+                params = astutil.params_of(fn)
+                captured = params[len(lead):]
+                # where the helper is used: bare, or _ParseFunction(helper, (captured...), ())
+                uses = [n for n in ast.walk(tree) if isinstance(n, ast.Call) and ast.unparse(n.func) == '_ParseFunction'
+                        and n.args and ast.unparse(n.args[0]) == fn.name]
+                if captured:
+                    ok = params[:len(lead)] == lead and len(uses) == 1 and isinstance(uses[0].args[1], ast.Tuple) \
+                        and [ast.unparse(x) for x in uses[0].args[1].elts] == captured and ast.unparse(uses[0].args[2]) == '()'
+                else:
+                    ok = params == lead and not uses
+                rep.add(unit, f'helper parameters = ([_ctx,] _text, _pos, captured names) and the captured tuple passes exactly those names in order {tag}',
+                        'case_complete', ok, detail={'params': params, 'src': src})
+                free = unexpected_free(fn, ctx)
+                rep.add(unit, f'helper has no free name besides its parameters {tag}', 'case_complete', not free, detail={'free': free})
+                want = ast.parse(frag.emit(build_arg(kind), ctx, precompile=False)).body
+                same = len(fn.body) == len(want) + 1 and all(_same_modulo_ids(a, b) for a, b in zip(fn.body, want)) \
+                    and ast.unparse(fn.body[-1]) == 'yield (_status, _result, _pos)'
+                rep.add(unit, f'helper body = the inline fragment of the argument + `yield (_status, _result, _pos)` {tag}', 'case_complete', same,
+                        detail={'src': src})
+
+
+def _same_modulo_ids(a, b):
+    """AST equality modulo the numeric suffix of _raise_errorN / _parse_function_N (program ids differ between two emissions)"""
+    import re
+    norm = lambda t: re.sub(r'(_raise_error|_parse_function_)\d+', r'\1N', ast.dump(t))
+    return norm(a) == norm(b)
+
+
+def callable_wrapper_obligations(rep, tier, unit='ground:argument-wrappers'):
+    """_ParseFunction / _StringLiteral / _ByteLiteral executed on distinct sentinel objects (the functions do not inspect
+    their arguments, so one execution with fresh sentinels decides the data flow)"""
+    from pyvc.rtver import native_namespace
+    for ctx in (False, True):
+        ns = native_namespace(ctx)
+        S = [object() for _ in range(8)]
+        log = []
+
+        def f(*a, **k):
+            log.append((a, k))
+            return S[7]
+        lead = (S[0],) if ctx else ()
+        pf = ns['_ParseFunction'](f, (S[3], S[4]), (('k', S[5]),))
+        r = pf(*lead, S[1], S[2])
+        rep.add(unit, f'_ParseFunction(func, args, kwargs)([ctx,] text, pos) = func([ctx,] text, pos, *args, **dict(kwargs)) [ctx={int(ctx)}]', 'ground',
+                r is S[7] and log == [(lead + (S[1], S[2], S[3], S[4]), {'k': S[5]})], detail={'log': repr(log)[:200]})
+        log.clear()
+        sl = ns['_wrap_string_literal']('abc', f)
+        r = sl(*lead, S[1], S[2])
+        rep.add(unit, f'wrapped string literal equals its value and parses with its helper [ctx={int(ctx)}]', 'ground',
+                sl == 'abc' and isinstance(sl, str) and r is S[7] and log == [(lead + (S[1], S[2]), {})])
+        log.clear()
+        bl = ns['_wrap_byte_literal'](0x41, f)
+        r = bl(*lead, S[1], S[2])
+        rep.add(unit, f'wrapped byte literal equals its value and parses with its helper [ctx={int(ctx)}]', 'ground',
+                bl == 0x41 and isinstance(bl, int) and r is S[7] and log == [(lead + (S[1], S[2]), {})])
+        # hashable and equal by value: a request key
+        k1 = ns['_ParseFunction'](f, (1, 'a'), ())
+        k2 = ns['_ParseFunction'](f, (1, 'a'), ())
+        rep.add(unit, f'_ParseFunction values are hashable and equal by (func, args, kwargs) [ctx={int(ctx)}]', 'ground', k1 == k2 and hash(k1) == hash(k2))
+
+
+def key_adequacy_obligations(rep, tier, unit='ground:memo-key-adequacy'):
+    """two requests with == keys must have the same outcome: holds for parser-valued arguments (function identity); for VALUE
+    arguments it needs hashable values whose == implies indistinguishability"""
+    from pyvc.rtver import native_namespace
+    ns = native_namespace(False)
+    f = lambda *a: None
+    PFn = ns['_ParseFunction']
+    rep.add(unit, 'different value arguments give different request keys (1 vs True)', 'ground', PFn(f, (1,), ()) != PFn(f, (True,), ()),
+            detail={'note': '1 == True and hash(1) == hash(True) in python'})
+    rep.add(unit, 'different value arguments give different request keys (1 vs 1.0)', 'ground', PFn(f, (1,), ()) != PFn(f, (1.0,), ()))
+    try:
+        hash((3, PFn(f, ([1, 2],), ()), 0))
+        ok = True
+    except TypeError:
+        ok = False
+    rep.add(unit, 'an unhashable argument value (a list) can be part of a request key', 'ground', ok)
+    g1, g2 = (lambda *a: None), (lambda *a: None)
+    rep.add(unit, 'different parser arguments give different request keys', 'ground', PFn(f, (g1,), ()) != PFn(f, (g2,), ()))
+    rep.add(unit, 'keyword arguments are part of the key', 'ground', PFn(f, (), (('k', 1),)) != PFn(f, (), (('k', 2),)))
+
+
+DOCUMENTED_CONSTRUCTORS = {'Opt', 'List', 'Some', 'Right', 'Left', 'Choice', 'Seq', 'Sep', 'Expect', 'ExpectNot', 'Skip', 'Longest', 'Backtrack', 'Fail',
+                           # further expression classes of the package (capitalised class names, README "Parsing Expressions")
+                           'Apply', 'Byte', 'Call', 'Class', 'Discard', 'KeywordArg', 'Let', 'OperatorTable', 'PythonExpression', 'PythonSection',
+                           'Ref', 'Regex', 'Rule', 'Str', 'Where', 'SymbolCounter'}
+
+
+def interception_obligations(rep, tier, unit='ground:constructor-interception'):
+    """the names that `Name(args)` treats as built-in constructors are exactly capitalised constructor names; every other
+    identifier - in particular the package's submodule and helper names - is left to user templates (C06, C20)"""
+    import keyword
+    probe = sorted(set(dir(X)) | {'foo', 'T', 'list', 'str', 'visit', 'Seq', 'Opt'})
+    wrongly = []
+    for name in probe:
+        if name.startswith('_') or keyword.iskeyword(name) or not name.isidentifier():
+            continue
+        try:
+            node = front.expr_of(f'{name}("a")')
+        except Exception as e:
+            # parse keywords of the grammar language itself (let, where, class, ...) cannot be template names anyway
+            continue
+        intercepted = not isinstance(node, X.Call)
+        if intercepted != (name in DOCUMENTED_CONSTRUCTORS):
+            wrongly.append((name, 'intercepted' if intercepted else 'not intercepted'))
+    rep.add(unit, 'Name("a") is a constructor call exactly for the documented constructor names', 'ground', not wrongly, detail={'wrong': wrongly})
